@@ -66,11 +66,16 @@ def ref_paths(directory, file, incs):
     return f, [posixpath.normpath(posixpath.join(cwd, i)) for i in incs]
 
 
-def _entry(kind, dcls, fcls, icls, form):
+INC_FORMS = [lambda d: ["-I", d], lambda d: ["-I" + d], lambda d: ["-isystem", d], lambda d: ["-isystem" + d]]
+
+
+def _entry(kind, dcls, fcls, icls, form, iform=0):
     e = {}
     if dcls is not None:
         e["directory"] = dcls
-    args = ["gcc", "-I", icls, "-DX", "-c", fcls]
+    # the include directory is given with -I or -isystem, detached or attached: all are directories a compiler running
+    # in `directory` would interpret relative to it
+    args = ["gcc"] + INC_FORMS[iform](icls) + ["-DX", "-c", fcls]
     e["file"] = fcls
     if kind == "missing":
         e["file"] = "nowhere/gone.c"
@@ -92,8 +97,10 @@ def _entry(kind, dcls, fcls, icls, form):
     return e
 
 
-def _pre(kind, d, f, i, first, nodir):
-    if not (0 <= kind < 6 and 0 <= d < 5 and 0 <= f < 4 and 0 <= i < 4):
+def _pre(kind, d, f, i, first, nodir, iform):
+    if not (0 <= kind < 6 and 0 <= d < 5 and 0 <= f < 4 and 0 <= i < 4 and 0 <= iform < 4):
+        return False
+    if kind != 0 and iform != 0:
         return False
     fx = P.get("fixkind")
     if fx is not None and kind != fx:
@@ -119,9 +126,9 @@ def _untraced():
     return contextlib.nullcontext()
 
 
-def h_db(kind: int, d: int, f: int, i: int, first: bool, nodir: bool) -> bool:
+def h_db(kind: int, d: int, f: int, i: int, first: bool, nodir: bool, iform: int) -> bool:
     """
-    pre: _pre(kind, d, f, i, first, nodir)
+    pre: _pre(kind, d, f, i, first, nodir, iform)
     post: _
     """
     import codebasin
@@ -139,13 +146,17 @@ def h_db(kind: int, d: int, f: int, i: int, first: bool, nodir: bool) -> bool:
             fc = FILE_CLASSES[k]
         if i == k:
             ic = INC_CLASSES[k]
+    ifm = None
+    for k in range(4):
+        if iform == k:
+            ifm = k
     # the neighbour entry has no `directory` of its own (root-relative spelling) or an explicit one: nothing computed
     # for one entry may leak into the next
     if nodir:
         fixed = {"file": "ok.c", "arguments": ["gcc", "-I", "relinc", "-c", "ok.c"]}
     else:
         fixed = {"directory": "/r", "file": "ok.c", "arguments": ["gcc", "-I", "/abs/inc", "-c", "ok.c"]}
-    e = _entry(kd, dc, fc, ic, P.get("form", "arguments"))
+    e = _entry(kd, dc, fc, ic, P.get("form", "arguments"), ifm)
     db = [e, fixed] if first else [fixed, e]
     STATS["compared"] += 1
     if P.get("_twin"):
@@ -277,7 +288,7 @@ def obligations(tier, known):
     return obs
 
 
-CLAIM = ("For every combination of the spelling classes of `directory`, `file` and -I (absolute, relative to the root, relative to "
+CLAIM = ("For every combination of the spelling classes of `directory`, `file` and the include directory (-I or -isystem, attached or detached; absolute, relative to the root, relative to "
          "a build directory inside or outside the root, with ./ and ../) the real load_database yields the file and include "
          "directories a compiler running in that directory would use; bad entries are skipped with one warning and do not "
          "disturb their neighbours - confirmed over all paths by CrossHair.")
